@@ -64,6 +64,7 @@ struct One {
     fired: std::collections::BTreeMap<&'static str, u64>,
     ok_mut: u64,
     stopped: bool,
+    states: Vec<u64>,
 }
 
 fn one(case: &Case, known: &BTreeSet<String>, disk: SimDisk, version: u16, bufsize: Option<usize>) -> Result<One, String> {
@@ -86,7 +87,7 @@ fn one(case: &Case, known: &BTreeSet<String>, disk: SimDisk, version: u16, bufsi
         (d.hash.finish(), d.k, d.fired.clone())
     };
     w.lib.close();
-    Ok(One { full: ctx.full_hashes, masked: ctx.res_hashes, image, dump_hash, trace, seam, fired, ok_mut: ctx.out.stats.ok_mutations, stopped })
+    Ok(One { full: ctx.full_hashes, masked: ctx.res_hashes, image, dump_hash, trace, seam, fired, ok_mut: ctx.out.stats.ok_mutations, stopped, states: ctx.out.stats.state_hashes.clone() })
 }
 
 pub fn run(case: &Case, known: &BTreeSet<String>) -> Outcome {
@@ -106,6 +107,7 @@ pub fn run(case: &Case, known: &BTreeSet<String>) -> Outcome {
     o.stats.sub_runs += 1;
     o.stats.seam_events += reference.seam;
     o.stats.ok_mutations = reference.ok_mut;
+    o.stats.state_hashes = reference.states.clone();
     o.stats.trace_hash = reference.trace ^ crate::prng::mix(crate::prng::fnv(&reference.image));
     if reference.stopped {
         // the history diverges from the model on the plain disk: another property's business
